@@ -396,6 +396,10 @@ fn parse_json_event(input: &[u8], output: &mut [u8]) -> Result<(usize, usize), E
         return Err(InnerError::BufferTooSmall(152).into());
     }
 
+    // zero-padding (so that the binary form does not depend on what was in the buffer)
+    output[6] = 0;
+    output[7] = 0;
+
     // This tracks where we are currently looking in the input as we scan forward.
     // It is short for INput POSition.
     let mut inpos = 0;
